@@ -61,3 +61,55 @@ Definition c16_w_ops : list cp_op := [OpOpen; OpReqData [71;69;84;32;47;117;112;
 Theorem C16_tunnel_full_refuted : ~ C16_tunnel_full.
 Proof. intros H. specialize (H (fun _ _ => CB_OK) (cp_make_cfg 1 (Z.to_nat 18000) 512 false false 0) c16_w_ops). vm_compute in H. discriminate. Qed.
 Print Assumptions C16_tunnel_full_refuted.
+
+(* ==== HISTORY-LEVEL THEOREMS (PTun*.v), callbacks answering OK ====
+   (T1) TUNNEL ESTABLISHED. History h: open; a CONNECT request of the wire grammar in ANY chunking (the last chunk may carry the first client bytes); a 2xx answer
+   of the response grammar in ANY chunking, request calls allowed in between only while the status line is incomplete (they are refused: DATA_OTHER, consumed 0);
+   client payload up to its first LF / NUL that the model's own probe does not take for HTTP; then ANY tail of data calls. Conclusions: the exact (return code,
+   consumed) of EVERY call (tn_h1_expect); exactly one transaction, reporting the CONNECT request and the 2xx status; from the call that delivers the deciding
+   byte on both directions are in TUNNEL and every later call is absorbed (TUNNEL, nothing consumed, no event, one transaction); chk_C16 accepts the run.
+   The op-order premise inside tn_h1_ok (no response op between the 2xx head and the deciding request call) excludes exactly the listed server-first finding. *)
+Require Import Htp.Model.Base Htp.Model.MBstr Htp.Spec.SWire Htp.Proof.PWire Htp.Proof.PWireHdr Htp.Proof.PWireBlock Htp.Proof.PWireConn Htp.Proof.PWireExch Htp.Proof.PWireRun.
+Require Import Htp.Proof.PSeg Htp.Proof.PSegRun Htp.Proof.PSegFold Htp.Proof.PSegPipe Htp.Proof.PSegRes Htp.Proof.PSegResRun Htp.Proof.PSegResThm Htp.Proof.PSegResCanon Htp.Proof.PPairThm.
+Require Import Htp.Proof.PTunBase Htp.Proof.PTunSeg Htp.Proof.PTunSegMid Htp.Proof.PTunRes Htp.Proof.PTunResTail Htp.Proof.PTunResFin Htp.Proof.PTunReq Htp.Proof.PTunProbe Htp.Proof.PTunConnR.
+Require Import Htp.Proof.PTunThm1 Htp.Proof.PTunThm2.
+Theorem C16_tunnel_established : forall cb g rq rsp cuts h,
+  wr_all_ok cb -> g_allow_space_uri g = false ->
+  tn_connect_ok g rq = true -> tn_rsp_ok g rsp cuts = true -> tn_2xx rsp = true -> tn_h1_ok g rq rsp cuts h ->
+  let run := cp_run cb g connp_new (tn_h1_ops h) in
+  (* (a), (b): what every call returns and consumes *)
+  map tn_o (snd run) = tn_h1_expect h /\
+  (* (c): exactly one transaction; it reports the CONNECT request and the 2xx status *)
+  (exists t, c_txs (fst run) = [Some t] /\ tn_reported t rq /\ t_response_status_number t = wr_status_value (wp_status rsp) /\
+             t_response_progress t = c_HTP_RESPONSE_COMPLETE) /\
+  (* (b), (d): after the call that establishes the tunnel every call is absorbed: TUNNEL, nothing consumed, no event, one transaction *)
+  (exists rs1 r rs2, snd run = rs1 ++ r :: rs2 /\ length rs1 = length (tn_h1_head h) /\ Forall tn_rquiet rs1 /\
+     r_in_status r = c_HTP_STREAM_TUNNEL /\ r_out_status r = c_HTP_STREAM_TUNNEL /\ Forall (tn_absorbed 1) rs2) /\
+  (* (e): the extracted tunnel oracle accepts the observations *)
+  chk_C16 (obs_run cb g connp_new (tn_h1_ops h)) = true /\
+  tn_tun (fst run).
+Proof. exact tn_tunnel_established. Qed.
+Print Assumptions C16_tunnel_established.
+(* (T2) 101 SWITCHING PROTOCOLS: any request of the grammar in any chunking, a 101 answer without Content-Length / Transfer-Encoding in any chunking, any tail:
+   the response call that delivers the last byte of the 101 head returns TUNNEL with both directions in TUNNEL; every later call is absorbed; one transaction.
+   The op-order premise (no request byte between the request and the 101) excludes the listed finding http09-then-tunnel-error. *)
+Theorem C16_switching_protocols : forall cb g rq rsp cuts (qchunks spre : list bytes) (slast : bytes) (tail : list cp_op),
+  wr_all_ok cb -> g_allow_space_uri g = false -> (g_max_tx g = 0 \/ 1 < g_max_tx g)%nat ->
+  sg_req_ok g rq = true -> tn_rsp_ok g rsp cuts = true -> tu_101_ok rq rsp cuts = true ->
+  Forall (fun x : bytes => x <> []) qchunks -> concat qchunks = wr_request_wire rq ->
+  Forall (fun x : bytes => x <> []) spre -> slast <> [] -> concat spre ++ slast = sr_wire rsp cuts [] ->
+  Forall tn_data_op tail ->
+  let head := OpOpen :: map OpReqData qchunks ++ map OpResData spre in
+  let ops := head ++ OpResData slast :: tail in
+  let run := cp_run cb g connp_new ops in
+  (* every call before the one that delivers the end of the 101 head leaves the request side out of tunnel mode; that call returns TUNNEL
+     having consumed its chunk, with both directions in tunnel mode; every later call is absorbed (TUNNEL, nothing consumed, no event, one transaction) *)
+  (exists rs1 rD rs2, snd run = rs1 ++ rD :: rs2 /\ length rs1 = length head /\ Forall tn_rquiet rs1 /\
+     tn_o rD = (c_HTP_STREAM_TUNNEL, length slast) /\ r_in_status rD = c_HTP_STREAM_TUNNEL /\ r_out_status rD = c_HTP_STREAM_TUNNEL /\
+     Forall (tn_absorbed 1) rs2) /\
+  (* exactly one transaction: it reports the request, and the status 101 *)
+  (exists t, c_txs (fst run) = [Some t] /\ wr_reported (sg_mask t) rq /\ t_response_status_number t = 101) /\
+  chk_C16 (obs_run cb g connp_new ops) = true /\
+  tn_tun (fst run).
+Proof. exact tu_switching_protocols. Qed.
+Print Assumptions C16_switching_protocols.
